@@ -470,8 +470,10 @@ where
             XRef::Invalid => panic!()
         };
         let primitive = obj.to_primitive(self)?;
-        // typed loads of this reference must not be answered with the old value
+        // typed loads of this reference must not be answered with the old value,
+        // nor reads of a stream with the data it had before (the stream cache goes by the object number)
         self.cache.clear();
+        self.stream_cache.clear();
         match self.changes.entry(old.id) {
             Entry::Vacant(e) => {
                 e.insert((primitive, r.gen));
@@ -572,6 +574,7 @@ where
 
         // update trailer which may have change now.
         self.cache.clear();
+        self.stream_cache.clear();
         *trailer = Trailer::from_dict(trailer_dict, &self.resolver())?;
 
         Ok(&self.backend)
